@@ -330,7 +330,21 @@ def spell(parts, style):
 
 def gen_rpms_doc(rng):
     variants = rng.sample(["Server", "Client", "Workstation"], rng.randint(1, 3))
-    pool = [FM.gen_source_package(rng, i) for i in range(rng.randint(1, 4))]
+    pool = []
+    names = set()
+    for i in range(rng.randint(1, 4)):
+        # distinct packages have distinct names: two pool entries that spell ONE source NEVRA in two ways would be two keys of
+        # one document naming the same package - which of them survives the conversion is not the property's business
+        # (a false alarm of this check met with VERIF_SEED=1 once the random stream had shifted)
+        for _try in range(20):
+            pkg = FM.gen_source_package(rng, i)
+            mine = set([pkg["src"]["name"]] + [p0["name"] for p0, _c in pkg["subs"]])
+            if not (mine & names):
+                break
+        else:
+            continue
+        names |= mine
+        pool.append(pkg)
     # one spelling per package, used consistently wherever the document names it
     for pkg in pool:
         pkg["style"] = rng.choice(["canon", "canon", "rpm", "dir", "epoch0"])
